@@ -159,13 +159,35 @@ def rw_reorder_defs(root: File, rng: random.Random, pool: NamePool) -> Optional[
 
 
 def _type_slots(root: File) -> List[Tuple[Any, str]]:
-    """(owner, attribute) pairs holding a type that is a field type or an alias target."""
+    """(owner, attribute) pairs holding a type: field types, and the ELEMENT types of arrays in fields and aliases
+    (aliasing the element of a row changes how runtimes dispatch on it, never what is encoded)."""
     out = []
     for g in root.all_files():
         for d in iter_defs(g):
             if isinstance(d, Message):
                 out += [(f, "type") for f in d.fields]
+                out += [(f.type, "elem") for f in d.fields if isinstance(f.type, Arr)]
+            elif isinstance(d, Alias) and isinstance(d.type, Arr):
+                out.append((d.type, "elem"))
     return out
+
+
+def _owner_def(root: File, o: Any) -> Any:
+    """The top-level definition that contains the slot owner (a Field or an Arr)."""
+    for g in root.all_files():
+        for top in g.items:
+            if isinstance(top, Alias) and top.type is o:
+                return g, top
+            if isinstance(top, Message):
+                stack = [top]
+                while stack:
+                    m = stack.pop()
+                    for it in m.items:
+                        if it is o or (isinstance(it, Field) and it.type is o):
+                            return g, top
+                        if isinstance(it, Message):
+                            stack.append(it)
+    return None, None
 
 
 def rw_introduce_alias(root: File, rng: random.Random, pool: NamePool) -> Optional[str]:
@@ -174,14 +196,13 @@ def rw_introduce_alias(root: File, rng: random.Random, pool: NamePool) -> Option
         return None
     o, a = rng.choice(slots)
     t = getattr(o, a)
-    g = file_of(o)
-    top = o.parent
-    while not isinstance(top.parent, File):
-        top = top.parent
+    g, top = _owner_def(root, o)
+    if g is None:
+        return None
     al = Alias(pool.pascal(), t, parent=g)
     g.items.insert(g.items.index(top), al)
     setattr(o, a, Ref(al))
-    return f"introduce alias {al.name} for the type of {o.name}"
+    return f"introduce alias {al.name} for the {'element ' if a == 'elem' else ''}type of {getattr(o, 'name', 'an array')}"
 
 
 def rw_inline_alias(root: File, rng: random.Random, pool: NamePool) -> Optional[str]:
@@ -190,10 +211,13 @@ def rw_inline_alias(root: File, rng: random.Random, pool: NamePool) -> Optional[
         return None
     o, a = rng.choice(slots)
     al = getattr(o, a).target
-    if file_of(al) is not file_of(o) and isinstance(al.type, Arr) and al.type.cap_const is not None:
+    if a == "elem" and isinstance(al.type, Arr):
+        return None  # an array cannot be written inline as an array element
+    g, _top = _owner_def(root, o)
+    if g is not file_of(al) and isinstance(al.type, Arr) and al.type.cap_const is not None:
         return None
     setattr(o, a, copy.copy(al.type) if isinstance(al.type, Arr) else Base(al.type.kind, al.type.width))
-    return f"inline alias {al.name} in {o.name}"
+    return f"inline alias {al.name} in {getattr(o, 'name', 'an array element')}"
 
 
 def rw_unnest(root: File, rng: random.Random, pool: NamePool) -> Optional[str]:
